@@ -12,6 +12,7 @@ degC / degF only, a zero offset o.  Obligations:
          initialisers) returns the same term as the static path for every ordered pair       [see C02 for the rest]
 """
 import sys
+import z3
 from fractions import Fraction as F
 from .. import harness as H, inventory as INV, core, engine, terms as tm, modes
 from ..terms import mk
@@ -105,9 +106,46 @@ def one(ctx, T, d):
         if va.offset or vb.offset:
             mag = lambda A, x: (A.abs(unitdata.scale_expr(A, va) * x[0]) + A.const(abs(va.offset)) + A.const(abs(vb.offset))) / unitdata.scale_expr(A, vb)
     ctx.round_bound(o, res.out[0], spec, w, K, positive=False, mag=mag, mode='ROUND')
+    if d['kind'] in ('to', 'from'):
+        range_obligation(ctx, T, d, w, res.out[0], spec, mag, K)
     if res.ub:
         u = ctx.ob(d['id'] + ' [ub]', 'ub-side-condition', 'BIT', d['id'] + ': no undefined behaviour on any path')
         u.reason = 'possible UB: %s %s' % (res.ub[0][1], res.ub[0][2])
+
+
+def range_obligation(ctx, T, d, w, term, spec, mag, K):
+    """one conversion leg whose exact result is comfortably inside the normal range computes no intermediate value that
+    overflows or falls deep into the subnormal range (where the standard rounding model of the accuracy obligation stops
+    applying): REAL query over the executed term's own intermediate operations; a model is replayed natively"""
+    from fractions import Fraction as F
+    o = ctx.ob(d['id'] + ' [range]', 'leg-range', 'REAL', '%s: whenever the exact result lies in [4 min_normal, max/4], no intermediate operation of the leg overflows or drops below min_normal/64' % d['id'])
+    o.key = o.oid
+    subs = [x for x in tm.walk(term) if x is not term and tm.is_f(x.ty) and x.op in ('fmul', 'fdiv', 'fadd', 'fsub')]
+    if not subs:
+        o.verdict = 'discharged'
+        o.syntactic = True
+        o.desc += ' [the leg is a single rounded operation: its only computed value is the result]'
+        return
+    p = tm.FPREC[T]
+    MAX = (F(2) - F(2) ** (1 - p)) * F(2) ** tm.FEMAX[T]
+    MINN = F(2) ** tm.FEMIN[T]
+    try:
+        it = modes.Real()
+        r = it.ev(term)
+        sv = [it.ev(x) for x in subs]
+    except modes.ModeError as e:
+        o.reason = str(e)
+        return
+    rv = lambda q: z3.RealVal('%d/%d' % (q.numerator, q.denominator))
+    ab = lambda e: z3.If(e >= 0, e, -e)
+    # a deeply subnormal intermediate only matters when the result depends on it multiplicatively (no sum or difference
+    # anywhere in the leg); an overflowing one always does
+    multiplicative = not any(x.op in ('fadd', 'fsub') for x in tm.walk(term))
+    bad = z3.Or(*[z3.Or(ab(v) > rv(MAX), z3.And(v != 0, ab(v) < rv(MINN / 64)) if multiplicative else z3.BoolVal(False)) for v in sv])
+    cons = it.defs + [ab(r) <= rv(MAX / 4), ab(r) >= rv(MINN * 4), bad]
+    o.syntactic = False
+    o.desc += ' [%d intermediate operations]' % len(subs)
+    ctx.decide(o, cons, w, ctx.round_replay(w, spec, K, mag, 0, False), grid=False)
 
 
 def main():
